@@ -837,6 +837,15 @@ static TIMESTAMPS: AtomicU64 = AtomicU64::new(0);
 static VALUES: AtomicU64 = AtomicU64::new(0);
 
 fn one_case(d: &mut Draw, fast: &[Config], cc: &[Config]) -> Outcome {
+    // ---- engine, protocol, attachment first (a choice sequence that runs
+    // dry while the design is drawn must not fix them to the first alternative)
+    let use_cc = !cc.is_empty() && d.chance(1, 10);
+    let config: Config = if use_cc { cc[d.below(cc.len() as u32) as usize].clone() } else { fast[d.below(fast.len() as u32) as usize].clone() };
+    let proto = if d.bool() { Protocol::Tb } else { Protocol::Api };
+    let attach_late = d.bool();
+    let big_times = d.chance(1, 6);
+    // X/Z pattern seeds for the inputs, also before the design
+    let xz_seed: Vec<u32> = (0..8).map(|_| d.below(1 << 16)).collect();
     // ---- design and stimulus
     let mut cfg = GenCfg::default();
     cfg.display = false;
@@ -844,12 +853,6 @@ fn one_case(d: &mut Draw, fast: &[Config], cc: &[Config]) -> Outcome {
     let g = gen_design(d, &cfg);
     let cycles = 10 + d.below(7) as usize;
     let stim = gen_stimulus(d, &g.design, cycles);
-    // ---- engine, protocol, attachment, time steps
-    let use_cc = !cc.is_empty() && d.chance(1, 10);
-    let config: Config = if use_cc { cc[d.below(cc.len() as u32) as usize].clone() } else { fast[d.below(fast.len() as u32) as usize].clone() };
-    let proto = if d.bool() { Protocol::Tb } else { Protocol::Api };
-    let attach_late = d.bool();
-    let big_times = d.chance(1, 6);
     let mut ws = WStim {
         xz: vec![vec![None; stim.inputs.len()]; stim.steps.len()],
         dt: vec![(1, 1); stim.steps.len()],
@@ -871,26 +874,47 @@ fn one_case(d: &mut Draw, fast: &[Config], cc: &[Config]) -> Outcome {
         };
         ws.dt[i] = (t(), t());
     }
-    // X / Z on the inputs (used by the 4-state engines only)
+    // X / Z on the inputs (used by the 4-state engines only); when the choice
+    // sequence has run dry the patterns come from `xz_seed` (drawn first)
     if config.use_4state {
+        let mut k = 0usize;
         for i in 0..ws.stim.steps.len() {
             for j in 0..ws.stim.inputs.len() {
                 let w = ws.stim.inputs[j].width;
                 let v = ws.stim.steps[i].values[j].clone();
-                ws.xz[i][j] = match d.weighted(&[14, 2, 2, 3, 1]) {
+                let dry = d.exhausted();
+                k += 1;
+                let sd = xz_seed[k % xz_seed.len()].wrapping_mul(2654435761u32.wrapping_add(k as u32)) >> 7;
+                let kind = if dry { [0, 0, 0, 0, 1, 2, 3, 4][(sd % 8) as usize] } else { d.weighted(&[14, 2, 2, 3, 1]) };
+                ws.xz[i][j] = match kind {
                     0 => None,
                     1 => Some((BigUint::zero(), low_mask(w))), // all X
                     2 => Some((low_mask(w), low_mask(w))),     // all Z
                     3 => {
                         // some bits X or Z (payload under the mask decides which)
-                        let m = big(&d.corner_bits(w), w);
-                        let p = big(&d.bits(w), w);
+                        let (m, p) = if dry {
+                            let pat = |seed: u32| -> BigUint {
+                                let mut x = seed as u64 | 1;
+                                let words: Vec<u64> = (0..w.div_ceil(64))
+                                    .map(|_| {
+                                        x ^= x << 13;
+                                        x ^= x >> 7;
+                                        x ^= x << 17;
+                                        x
+                                    })
+                                    .collect();
+                                big(&words, w)
+                            };
+                            (pat(sd), pat(sd ^ 0x5bd1e995))
+                        } else {
+                            (big(&d.corner_bits(w), w), big(&d.bits(w), w))
+                        };
                         let known = &v ^ (&v & &m);
                         Some((known | (&p & &m), m))
                     }
                     _ => {
                         // one X bit in an otherwise known value
-                        let b = d.below(w as u32) as u64;
+                        let b = if dry { (sd as u64) % w as u64 } else { d.below(w as u32) as u64 };
                         let mut m = BigUint::zero();
                         m.set_bit(b, true);
                         let mut p = v.clone();
@@ -918,10 +942,13 @@ fn one_case(d: &mut Draw, fast: &[Config], cc: &[Config]) -> Outcome {
         println!("{text}// {label}\n// stimulus: {}", stim_json(&ws));
     }
     let mut gen_classes: Vec<String> = vec![];
-    for c in &g.classes {
-        if c.starts_with("signed") || c.starts_with("struct") || c.starts_with("array") || c.starts_with("inst") || c.starts_with("two_state") {
+    for c in ["var:struct", "var:array", "item:inst", "inst:param_override", "decl:function", "decl:enum", "ctx:signed_rhs"] {
+        if g.classes.contains(c) {
             gen_classes.push(format!("gen:{c}"));
         }
+    }
+    if g.design.modules.iter().any(|m| m.decls.iter().any(|x| x.ty.signed && matches!(x.kind, DeclKind::Var | DeclKind::Input | DeclKind::Output | DeclKind::Let))) {
+        gen_classes.push("var:signed".into());
     }
     if g.design.top().has_ff() {
         gen_classes.push("design:sequential".into());
@@ -1235,7 +1262,7 @@ pub fn run(ctx: &Ctx) {
     }
     let (fast, cc) = engine_configs();
     ctx.note("wave_engines", json!(fast.iter().chain(cc.iter()).map(config_label).collect::<Vec<_>>()));
-    let n = std::env::var("C36_WAVE_CASES").ok().and_then(|s| s.parse::<usize>().ok()).unwrap_or(ctx.scale(400, 12_000));
+    let n = std::env::var("C36_WAVE_CASES").ok().and_then(|s| s.parse::<usize>().ok()).unwrap_or(ctx.scale(240, 12_000));
     ctx.run_payloads("wave-recorded", |p| {
         std::thread::scope(|s| {
             std::thread::Builder::new()
